@@ -8,7 +8,7 @@ from harness.props import C01
 ID = 'C04'
 LEAN_TARGETS = ['Props.C04']
 # Tie A: equivalence theorems generated from the current source by translate/py2lean.py (checked on every run)
-TIE_A = ['rev_exponent_parity', 'gi_exponent_parity'] + ['meth_conjugate_eq', 'meth_even_eq', 'meth_odd_eq', 'meth_mag2_eq']
+TIE_A = ['rev_exponent_parity', 'gi_exponent_parity'] + ['meth_conjugate_eq', 'meth_even_eq', 'meth_odd_eq', 'meth_mag2_eq'] + ['lay_involutions_eq']
 OBLIGATIONS = [
     'C04.rev_exponent_as_coded', 'C04.gi_exponent_as_coded', 'C04.rev_sign_periodic', 'C04.rev_sign_values',
     'C04.rev_on_grade', 'C04.gi_on_grade', 'C04.conj_on_grade',
